@@ -658,6 +658,38 @@ class DictIterModel(Model):
 JDUMP = z3.Function("JDUMP", U, U)
 
 
+class DictObjModel(Model):
+    """d.items() / sorted(..) / tuple(..) of a dict object: opaque values
+    determined by the dict's value.  A tuple built from a dict's items is
+    hashable only if every value in it is: not guaranteed for JSON-like
+    metadata (nested dicts / lists), hence `maybe_unhashable`."""
+
+    def call_ref_method(self, st, recv, name, node):
+        if recv.cls == "DictObj" and name in ("items", "keys", "values"):
+            val = self.eng.load_field(st, recv, "value")
+            f = z3.Function("DICT_" + name, U, U)
+            v = VU(f(val.t))
+            v.maybe_unhashable = name != "keys"
+            return v
+        return NotImplemented
+
+    def call_global(self, st, name, node):
+        eng = self.eng
+        if name in ("sorted", "tuple", "list", "frozenset") and node.args:
+            # peek: only handle opaque dict-derived values here
+            if isinstance(node.args[0], ast.Call) or True:
+                pass
+        return NotImplemented
+
+    def tuple_of(self, st, v, line):
+        if isinstance(v, VU):
+            f = z3.Function("TUPLE_OF", U, U)
+            r = VU(f(v.t))
+            r.maybe_unhashable = getattr(v, "maybe_unhashable", False)
+            return r
+        return None
+
+
 class JsonModel(Model):
     """json.dumps(x, sort_keys=True): the canonical JSON text of the value
     of x (a function of the value; injective on JSON values: A-JSON)."""
@@ -677,4 +709,4 @@ class JsonModel(Model):
         return NotImplemented
 
 
-ALL = ALL + [DictIterModel, JsonModel]
+ALL = ALL + [DictIterModel, DictObjModel, JsonModel]
